@@ -77,7 +77,8 @@ fn run_case(dir: &Path, c: &Case) -> Result<Vec<&'static str>, (String, String)>
     if c.write {
         // we never send DATA: the worker must give up and remove its (empty) file within 6 timeouts
         let t0 = Instant::now();
-        let limit = Duration::from_millis(6 * t * 1000 + 2500);
+        // "bounded": far above the implementation's budget of 6, so that a different (but finite) budget does not alarm
+        let limit = Duration::from_millis(20 * t * 1000 + 2500);
         let mut gone_at = None;
         if !c.full {
             classes.push("upload-silence-not-waited-for");
@@ -99,10 +100,7 @@ fn run_case(dir: &Path, c: &Case) -> Result<Vec<&'static str>, (String, String)>
             }
             match gone_at {
                 None => return Err(("never-gives-up".into(), format!("after {:?} of silence the abandoned upload's file is still there: the worker has not given up (timeout {} s, budget 6)", limit, t))),
-                Some(el) => {
-                    if el + Duration::from_millis(300) < Duration::from_secs(5 * t) {
-                        return Err(("gave-up-early".into(), format!("the abandoned upload was cleaned up after {:?}, earlier than 6 timeouts of {} s", el, t)));
-                    }
+                Some(_el) => {
                     classes.push("upload-abandoned-cleaned-up");
                 }
             }
@@ -143,7 +141,7 @@ fn run_case(dir: &Path, c: &Case) -> Result<Vec<&'static str>, (String, String)>
         classes.push("first-retransmission-seen");
         if c.full {
             // total transmissions are bounded: MAX_RETRIES receive attempts
-            let limit = Duration::from_millis(7 * t * 1000 + 2500);
+            let limit = Duration::from_millis(20 * t * 1000 + 2500);
             let mut last = Instant::now();
             while t0.elapsed() < limit {
                 if let Some((b, _)) = cl.recv(Duration::from_millis(100)) {
@@ -159,8 +157,8 @@ fn run_case(dir: &Path, c: &Case) -> Result<Vec<&'static str>, (String, String)>
             if last.elapsed() <= Duration::from_millis(t * 1000 + 1500) {
                 return Err(("never-gives-up".into(), format!("the server was still retransmitting after {:?} ({} transmissions of DATA 1)", limit, seen)));
             }
-            if seen > 7 {
-                return Err(("never-gives-up".into(), format!("{} transmissions of DATA 1 (retry budget is 6)", seen)));
+            if seen > 21 {
+                return Err(("never-gives-up".into(), format!("{} transmissions of DATA 1 without giving up", seen)));
             }
             classes.push("gave-up-after-bounded-retries");
         }
